@@ -976,3 +976,10 @@ func (vc *VC) assumeAllocated(st *State, ref string) {
 	al := vc.heapGet(st, "alloc", ArrSort(SRef, SBool))
 	vc.assume(st, or(eq(ref, "nil"), sel(al, ref)))
 }
+
+func constantInt64(tv types.TypeAndValue) (int64, bool) {
+	if tv.Value == nil {
+		return 0, false
+	}
+	return constant.Int64Val(constant.ToInt(tv.Value))
+}
